@@ -14,19 +14,32 @@ RULE = ("valid streams of every method (sequential, kd-tree, Edgebreaker standar
         "guard pages, a per-operation watchdog and an allocation cap; every call must return ok / error, leave the input "
         "unchanged, and a refused allocation must be an array sized by a declared element count. The Lean model decodes "
         "the same bytes: status (ok / error / unknown version) for every stream the model decides, consumed bytes and "
-        "geometry for sequential streams; distinct op lines")
-THEOREM_BACKED = ("decode_total; decode_returns_status (decodeGeometrySeq: geometry and status ok, or no geometry and an error "
-                  "status) and decode_returns_status_with (dispatcher with arbitrary disciplined body decoders); "
-                  "decode_some_ok_valid; decode_consumes_prefix / consumed_le_length (remaining input is a suffix of the caller's "
-                  "bytes); unknown_major_rejected / unknown_minor_rejected (version gate of the dispatcher, any body decoders); "
-                  "fuel sufficiency: metadata_nesting_fuel_sufficient, symbol_table_fuel_sufficient, le_groups_fuel_sufficient, "
-                  "delta_decode_fuel_sufficient")
-CORRESPONDENCE_ONLY = ("memory safety, absence of undefined behaviour and termination of the compiled C++ are observed "
-                       "(ASan+UBSan, guard pages, watchdog) on the generated corruption campaign, not proved; kd-tree and "
-                       "Edgebreaker decoders are outside the model")
-EXPLANATION = ("partial: Lean definitions are total and memory safe by construction, so the theorems state the logic that "
-               "remains (status discipline, version gate, purity, fuel sufficiency); the property itself is checked on "
-               "the implementation by sanitizers over the campaign")
+        "geometry for sequential streams; distinct op lines"
+        '; plus structure-aware corruption of every located header / count / descriptor / section field of small '
+        "base streams (layouts parsed in Python, Edgebreaker offsets from the model's trace tags), the tamper-"
+        'hook campaign (harness ops tcount / tenc: the encoder re-run with exactly one semantic value replaced — '
+        'traversal / valence symbols, seam / start-face bits, split-event fields; accept / reject compared with '
+        'the Lean model), the corrupt-stream families of ebcases / kdcases / legacycases (accept / reject + '
+        'geometry against the complete Lean decoder) and the regression streams of repaired findings')
+THEOREM_BACKED = ('DracoProps.C02: decode_total; decode_returns_status (decodeGeometrySeq: geometry and status ok, or no '
+                  'geometry and an error status) and decode_returns_status_with (dispatcher with arbitrary disciplined body'
+                  ' decoders); decode_some_ok_valid; decode_consumes_prefix / consumed_le_length (remaining input is a '
+                  "suffix of the caller's bytes); unknown_major_rejected / unknown_minor_rejected (version gate of the "
+                  'dispatcher, any body decoders); fuel sufficiency: metadata_nesting_fuel_sufficient, '
+                  'symbol_table_fuel_sufficient, le_groups_fuel_sufficient, delta_decode_fuel_sufficient. DracoProps.C02Eb:'
+                  ' eb_disciplined (status discipline of the Edgebreaker body decoder, every input and bitstream version), '
+                  'decode_returns_status_eb, decode_seq_eb_some_ok_valid, depth_first_fuel_sufficient / '
+                  'max_prediction_degree_fuel_sufficient (the fuel exits of both traversers are unreachable for every '
+                  'corner table). For the complete decoder (all three bodies) purity is C18Eb.decode_consumes_prefix')
+CORRESPONDENCE_ONLY = ('memory safety, absence of undefined behaviour and termination of the compiled C++ are observed '
+                       '(ASan+UBSan, guard pages, watchdog) on the generated corruption campaign, not proved; not proved on the '
+                       'model either: status discipline of the kd-tree body decoder (a parameter of decode_returns_status_eb) '
+                       'and fuel adequacy of the loops that swing around a vertex (a fuel: / ub: outcome of the model is '
+                       'reported as a finding candidate)')
+EXPLANATION = ('partial: Lean definitions are total and memory safe by construction, so the theorems state the logic '
+               'that remains (status discipline incl. the Edgebreaker body, version gate, purity, fuel sufficiency); the'
+               ' property itself is checked on the implementation by sanitizers over the campaign; the Lean decoder '
+               'model (all methods) is compared on the streams it decides')
 ASSUMPTIONS = ["memory safety / UB-freedom of the C++ is established by observation under ASan+UBSan on the explored inputs only"]
 TRUSTED_EXTRA = ["harness/robust_main.cc (watchdog, allocation cap), harness/ops_robust.cc (guard-page mappings, entry point drivers)"]
 TIMEOUT = 3000
